@@ -121,7 +121,9 @@ type DrvRun struct {
 	After          fsx.Snap
 	OutsideChanged string
 	cancelDone     bool
-	FSCalls        int
+	// ActionsAfterCancel: writes and callbacks that began after the cancellation was complete
+	ActionsAfterCancel int
+	FSCalls            int
 }
 
 func (d *Drv) New() *DrvRun {
@@ -171,6 +173,7 @@ func (r *DrvRun) Body() {
 	}
 	w := &mcWriter{failAt: d.WriterFailAt, short: d.WriterShort, noYield: d.NoYield, once: d.WriterOnce}
 	w.err = flavoured(d.ErrFlavour, errWriter)
+	w.cancelled = &r.cancelDone
 	r.W = w
 	rd := newReader(d.Doc)
 	rd.err = flavoured(d.ErrFlavour, errReader)
@@ -228,6 +231,9 @@ func (r *DrvRun) Body() {
 			mc.YieldAs("callback")
 		}
 		calls++
+		if r.cancelDone {
+			r.ActionsAfterCancel++
+		}
 		r.Rows = append(r.Rows, cbRow{mc.CurrentThread(), sut.FromWalker(wn)})
 		if d.CbFailAt > 0 && calls >= d.CbFailAt {
 			return errCallback
@@ -289,6 +295,7 @@ func (r *DrvRun) Body() {
 	r.Out = w.buf.String()
 	r.Returned = true
 	r.CancelSeen = r.cancelDone
+	r.ActionsAfterCancel += w.afterCancel
 	r.FSCalls = mos.Calls
 }
 
